@@ -645,6 +645,9 @@ class SE3(SO3):
             # SE3(x, y, z)
             self.data = [base.transl(x, y, z)]
 
+        else:
+            raise ValueError('bad argument to constructor')
+
     @staticmethod
     def _identity():
         return np.eye(4)
